@@ -124,14 +124,14 @@ def three_spheres_planar(S):
     _cluster_body(S, 3, planar=True)
 
 
-@obligation('C09.rule.three_spheres', functions=FUNCS, max_paths=2000, timeout_s=120, nvalid=3, cost=30, wall_s=2400,
+@obligation('C09.rule.three_spheres', functions=FUNCS, max_paths=2000, timeout_s=120, nvalid=3, cost=30, wall_s=900,
             tier='thorough', stubs=['Mie/Multisphere/Tmatrix/DDA := marker classes'],
             bounds='3 uniform spheres with symbolic centres and radii')
 def three_spheres(S):
     _cluster_body(S, 3)
 
 
-@obligation('C09.rule.four_spheres', functions=FUNCS, max_paths=6000, timeout_s=120, nvalid=2, cost=30, wall_s=3000,
+@obligation('C09.rule.four_spheres', functions=FUNCS, max_paths=6000, timeout_s=120, nvalid=2, cost=30, wall_s=900,
             tier='thorough', stubs=['Mie/Multisphere/Tmatrix/DDA := marker classes'],
             bounds='4 uniform spheres with symbolic centres and radii')
 def four_spheres(S):
